@@ -136,8 +136,14 @@ def run(ctx):
                         if params["actions"]:
                             p1["actions"] = params["actions"]
                         r1 = mtlib.run_driver(exe, "enc", g["path"], os.path.join(wd, "ref.out"), os.path.join(wd, "ref.tr"), **p1)
-                        ref_cache[rk] = open(os.path.join(wd, "ref.out"), "rb").read()
-                    if ref_cache[rk] != out:
+                        if r1["hang"] or r1["rc"] not in (0, 66) or not os.path.exists(os.path.join(wd, "ref.out")):
+                            ctx.violation("hang:%s:T1:to0" % g["inp"], "single-thread reference run did not terminate / failed (rc %s)" % r1["rc"],
+                                          dict(kind="run", mode="enc", params=p1, input=g["inp"]))
+                            ref_cache[rk] = None
+                        else:
+                            ref_cache[rk] = open(os.path.join(wd, "ref.out"), "rb").read()
+                            os.unlink(os.path.join(wd, "ref.out"))
+                    if ref_cache[rk] is not None and ref_cache[rk] != out:
                         ctx.violation("finish:determinism:%s" % g["inp"], "output differs from the 1-thread one-shot output (%s)" % label, rp)
         tailsz = len(out) - 12 - sum(e["b"] for e in blocks) if finished else 0
         evs2 = [e for e in evs if e["e"] != "FlushDone"]
